@@ -100,3 +100,53 @@ def load_known(path=None):
 
 def key_hash(ident):
     return hashlib.sha256(ident.encode()).hexdigest()[:12]
+
+
+class SubCtx:
+    """View of a Ctx that records only selected rules of a sibling property's rule function, under
+    this property's own rule labels (several properties share necessary structural conditions)."""
+
+    def __init__(self, ctx, rule_map, note=''):
+        self._ctx = ctx
+        self._map = rule_map
+        self._note = note
+        self.prog = ctx.prog
+        self.prop = ctx.prop
+        self.tier = ctx.tier
+        self.stats = ctx.stats
+
+    def _r(self, rule):
+        return self._map.get(rule)
+
+    def ok(self, rule, key, site, msg, detail=None, nontrivial=True):
+        if self._r(rule):
+            self._ctx.ok(self._r(rule), key, site, msg, detail, nontrivial)
+
+    def bad(self, rule, key, site, msg, detail=None):
+        if self._r(rule):
+            self._ctx.bad(self._r(rule), key, site, msg, detail)
+
+    def unknown(self, rule, key, site, msg, detail=None):
+        if self._r(rule):
+            self._ctx.unknown(self._r(rule), key, site, msg, detail)
+
+    def check(self, cond, rule, key, site, msg_ok, msg_bad=None, detail=None):
+        if self._r(rule):
+            return self._ctx.check(cond, self._r(rule), key, site, msg_ok, msg_bad, detail)
+        return cond
+
+    def floor(self, rule, what, found, floor):
+        if self._r(rule):
+            self._ctx.floor(self._r(rule), what, found, floor)
+
+    def fn(self, rule, pat):
+        return self._ctx.fn(self._r(rule) or rule, pat)
+
+    def touch(self, *fns):
+        self._ctx.touch(*fns)
+
+    def saw_calls(self, n=1):
+        self._ctx.saw_calls(n)
+
+    def saw_edges(self, n=1):
+        self._ctx.saw_edges(n)
